@@ -46,7 +46,10 @@ func Equal(a, b *V, sameMessage bool) Tri {
 		if a.Cap == b.Cap {
 			return Yes
 		}
-		return Unspecified // depends on the capability table
+		// Different indices in one message whose capability table is not
+		// populated (the model never populates it): neither documented
+		// condition for equality holds.
+		return No
 	case KStruct:
 		return structEqual(a.Data, a.Ptrs, b.Data, b.Ptrs, sameMessage)
 	}
